@@ -1594,7 +1594,34 @@ func c14OfferUpdate(p *core.Program, r *core.Report) {
 		norm := func(e ast.Expr) string { return stripSpaces(types.ExprString(e)) }
 		ps, over := paths.Enumerate(fi.Decl.Body, paths.Config{Info: info, Inline: in.Body, Expand: in.Expand,
 			Cond: func(cnd ast.Expr, v bool) *paths.Event {
-				return &paths.Event{Kind: "COND", Arg: fmt.Sprintf("%s=%v", norm(cnd), v)}
+				arg := fmt.Sprintf("%s=%v", norm(cnd), v)
+				// the outcome as a relation between the register read and the other operand
+				if be, ok := ast.Unparen(cnd).(*ast.BinaryExpr); ok {
+					isGet := func(e ast.Expr) bool { return strings.Contains(norm(e), ".Get(") }
+					op := be.Op
+					if isGet(be.Y) && !isGet(be.X) {
+						op = flipOp(op)
+					}
+					if isGet(be.X) != isGet(be.Y) {
+						rel := ""
+						switch {
+						case (op == token.LSS && v) || (op == token.GEQ && !v):
+							rel = "reg<r"
+						case (op == token.LEQ && v) || (op == token.GTR && !v):
+							rel = "reg<=r"
+						case (op == token.GTR && v) || (op == token.LEQ && !v):
+							rel = "reg>r"
+						case (op == token.GEQ && v) || (op == token.LSS && !v):
+							rel = "reg>=r"
+						case (op == token.EQL && v) || (op == token.NEQ && !v):
+							rel = "reg==r"
+						}
+						if rel != "" {
+							arg += " REL:" + rel
+						}
+					}
+				}
+				return &paths.Event{Kind: "COND", Arg: arg}
 			},
 			Classify: func(n ast.Node) []paths.Event {
 				var out []paths.Event
@@ -1602,6 +1629,11 @@ func c14OfferUpdate(p *core.Program, r *core.Report) {
 					if call, ok := m.(*ast.CallExpr); ok {
 						if sel, ok := call.Fun.(*ast.SelectorExpr); ok && sel.Sel.Name == "UpdateIfGreater" {
 							out = append(out, paths.Event{Kind: "UPDATE", Pos: call.Pos()})
+						}
+					}
+					if rs, ok := m.(*ast.ReturnStmt); ok && len(rs.Results) == 1 {
+						if id, ok := ast.Unparen(rs.Results[0]).(*ast.Ident); ok && (id.Name == "true" || id.Name == "false") {
+							out = append(out, paths.Event{Kind: "RETLIT", Arg: id.Name, Pos: rs.Pos()})
 						}
 					}
 					return true
@@ -1626,6 +1658,25 @@ func c14OfferUpdate(p *core.Program, r *core.Report) {
 			}
 			if !byValue {
 				probs = append(probs, "a path returns without UpdateIfGreater and without having compared the rank with the register's value: "+pa.String())
+			}
+			// what such a path reports is what the comparison found: true only where the register was
+			// found smaller than the rank (it changes), false only where it was found at least as large
+			strictlyLess, atLeast := false, false
+			for _, e := range pa {
+				if e.Kind == "COND" {
+					switch {
+					case strings.HasSuffix(e.Arg, "REL:reg<r"):
+						strictlyLess = true
+					case strings.HasSuffix(e.Arg, "REL:reg>=r"), strings.HasSuffix(e.Arg, "REL:reg>r"), strings.HasSuffix(e.Arg, "REL:reg==r"):
+						atLeast = true
+					}
+				}
+			}
+			if byValue && pa.HasArg("RETLIT", "true") && !strictlyLess {
+				probs = append(probs, "a path reports a change (true) without having found the register smaller than the rank: an offer whose rank equals the register's value leaves the state as it was and is reported as a change: "+pa.String())
+			}
+			if byValue && pa.HasArg("RETLIT", "false") && !atLeast {
+				probs = append(probs, "a path reports no change (false) without having found the register at least as large as the rank: "+pa.String())
 			}
 		}
 		fileProbs(r, "C14.offer-update", c, pos, uniq(probs), fmt.Sprintf("%d path(s), each through UpdateIfGreater", len(ps)))
